@@ -91,7 +91,7 @@ def runs_to_values(runs):
     return v
 
 
-def catalogue_shapes():
+def catalogue_shapes(tier="quick"):
     """list of (name, fn(repr) -> sorted values or None, preferred reprs or None)"""
     S = []
 
@@ -136,6 +136,14 @@ def catalogue_shapes():
     add("holes_offset_gt_i8_max", lambda r: list(range(-128, 11)) + list(range(20, 31)) if r == "i8" else None, ["i8"])
     add("holes_offset_gt_127_u8", lambda r: list(range(0, 200)) + list(range(210, 256)) if r == "u8" else None, ["u8"])
     add("holes_long_run_i16_small_span", lambda r: [-300] + list(range(-200, 100)) + [200, 201] if r == "i16" else None, ["i16"])
+
+    if tier == "thorough":
+        # the documented size limit, and runs longer than half of a 16-bit repr
+        add("huge_u16_gapless_65534", lambda r: list(range(0, 65534)) if r == "u16" else None, ["u16"])
+        add("huge_i16_two_long_runs", lambda r: list(range(-32768, 0)) + list(range(1, 32766)) if r == "i16" else None, ["i16"])
+        add("huge_i32_many_runs_40000",
+            lambda r: runs_to_values([(-70000 + k * 450, -70000 + k * 450 + 399) for k in range(100)]) if r == "i32" else None,
+            ["i32"])
 
     def big(n, runs, start):
         def f(r):
@@ -501,7 +509,7 @@ def plan_corpus(seed, tier, shard=0):
     """returns list of module specs: dict(name, repr, variants, attrs, config, tags)"""
     specs = []
     rng = Rng(seed, 0xC0 + shard)
-    shapes = catalogue_shapes()
+    shapes = catalogue_shapes(tier)
     rot = 0
 
     def add_module(r, values, shape_name, c_rng, iter_mode, force=None, shuffle=None, renames=None):
@@ -521,6 +529,12 @@ def plan_corpus(seed, tier, shard=0):
         gapless = values[-1] - values[0] == len(values) - 1
         modes = legal_iter_modes(gapless)
         out = []
+        if len(values) > 5000:
+            # compile time: three configurations only
+            out.append(("next_and_back", {"as_str": "table", "range": True, "names": True, "from_str": None, "FromStr": None}))
+            out.append(("table", {"range": True, "names": False, "as_str": None, "from_str": None, "FromStr": None}))
+            out.append(("auto", {"range": True, "names": False, "as_str": None, "from_str": None, "FromStr": None}))
+            return out
         for m in modes:
             if m == "table_inline" and len(values) > 300:
                 continue
